@@ -207,6 +207,13 @@ func (g *Gateway) handleLegacyProtocol(w http.ResponseWriter, r *http.Request, t
 		}
 		defer in.Close()
 
+		if t.transportOut == nil {
+			// no RDG_OUT_DATA leg was set up for this connection id, so
+			// there is nowhere to send responses to
+			log.Printf("RDGIN for session %s without RDGOUT, closing", t.RDGId)
+			return
+		}
+
 		if t.transportIn == nil {
 			t.Id = uuid.New().String()
 			t.transportIn = in
